@@ -72,6 +72,7 @@ type c18Case struct {
 	Text       string     `json:"text,omitempty"` // informational: the rendered parameter list
 	IsSoup     bool       `json:"is_soup,omitempty"`
 	Soup       string     `json:"soup,omitempty"` // token-soup phase: the raw parameter text
+	Batch      []c18Case  `json:"batch,omitempty"` // sequence phase: lists parsed one after the other, emitted afterwards
 }
 
 var c18Strict = map[string]string{
@@ -1542,12 +1543,90 @@ func c18KnownCases() map[string]c18Case {
 	return m
 }
 
+// c18Batch: several lists are parsed one after the other and emitted only
+// afterwards; each must come out exactly as it does when handled alone (a
+// parsed list owns its wire values: parsing another list must not change them).
+func c18Batch(cs []c18Case) (key, msg string, n int) {
+	type one struct {
+		text  string
+		alone []byte
+		l     *svcb.ParamList
+		rec   dnsdata.Record
+		vals  [][]byte
+	}
+	var kept []*one
+	for i := range cs {
+		text := cs[i].listText()
+		var l0 svcb.ParamList
+		if l0.FromText([]byte(text)) != nil {
+			continue
+		}
+		var wb bytes.Buffer
+		if l0.ToWire(&wb) != nil {
+			continue
+		}
+		o := &one{text: text, alone: append([]byte(nil), wb.Bytes()...)}
+		if mr, err := new(dnsdata.Codec).ConvertLn([]byte(cs[i].line())); err == nil {
+			for _, m := range mr {
+				o.vals = append(o.vals, append([]byte(nil), m.Value...))
+			}
+		}
+		kept = append(kept, o)
+		_ = i
+	}
+	codec := new(dnsdata.Codec)
+	ki := 0
+	for i := range cs {
+		if ki >= len(kept) || cs[i].listText() != kept[ki].text {
+			continue
+		}
+		o := kept[ki]
+		ki++
+		o.l = new(svcb.ParamList)
+		if err := o.l.FromText([]byte(o.text)); err != nil {
+			return "batch-acceptance-differs", fmt.Sprintf("list %q accepted alone, rejected in a sequence: %v", o.text, err), len(kept)
+		}
+		if o.vals != nil {
+			rec, err := codec.DecodeLn([]byte(cs[i].line()))
+			if err != nil {
+				return "batch-acceptance-differs", fmt.Sprintf("line %q accepted alone, rejected in a sequence: %v", cs[i].line(), err), len(kept)
+			}
+			o.rec = rec
+		}
+	}
+	for _, o := range kept[:ki] {
+		var wb bytes.Buffer
+		if err := o.l.ToWire(&wb); err != nil {
+			return "batch-towire-error", fmt.Sprintf("list %q: %v", o.text, err), len(kept)
+		}
+		if !bytes.Equal(wb.Bytes(), o.alone) {
+			return "wire-changed-by-later-parse", fmt.Sprintf("list %q emits %x when emitted right away, %x after %d more lists were parsed", o.text, o.alone, wb.Bytes(), ki-1), len(kept)
+		}
+		if o.rec != nil {
+			mr, err := o.rec.MarshalMap()
+			if err != nil || len(mr) != len(o.vals) {
+				return "batch-marshal-error", fmt.Sprintf("list %q: MarshalMap %v (%d records, alone %d)", o.text, err, len(mr), len(o.vals)), len(kept)
+			}
+			for j := range mr {
+				if !bytes.Equal(mr[j].Value, o.vals[j]) {
+					return "wire-changed-by-later-parse", fmt.Sprintf("line with list %q stores %x when converted right away, %x after %d more lines were decoded", o.text, o.vals[j], mr[j].Value, ki-1), len(kept)
+				}
+			}
+		}
+	}
+	return "", "", len(kept)
+}
+
 func TestC18(t *testing.T) {
 	if f := kit.ReplayFile(); f != "" {
 		var c c18Case
 		kit.LoadReplay(t, f, &c)
 		kit.Case(c)
-		if c.IsSoup {
+		if len(c.Batch) > 0 {
+			if key, msg, _ := c18Batch(c.Batch); key != "" {
+				kit.Fail(t, "C18", key, c, "%s", msg)
+			}
+		} else if c.IsSoup {
 			if key, msg, _ := c18Soup(c.Soup, nil); key != "" {
 				kit.Fail(t, "C18", key, c, "%s", msg)
 			}
@@ -1592,6 +1671,30 @@ func TestC18(t *testing.T) {
 			kit.Fail(t, "C18", key, c, "%s", msg)
 		}
 		c18Classify(&c, outcome)
+		kit.Sample(c)
+	}))
+
+	// sequences: 2..5 lists parsed one after the other, emitted afterwards
+	kit.SetRapid(kit.N(60000, 2400000))
+	rapid.Check(t, kit.Prop("C18", func(t *rapid.T) {
+		n := rapid.IntRange(2, 5).Draw(t, "nbatch")
+		c := c18Case{}
+		for i := 0; i < n; i++ {
+			c.Batch = append(c.Batch, c18GenCase(t, known))
+		}
+		kit.Case(c)
+		key, msg, kept := c18Batch(c.Batch)
+		if key != "" {
+			kit.Fail(t, "C18", key, c, "%s", msg)
+		}
+		kit.Class(fmt.Sprintf("sequence:%d-accepted-lists", kept))
+		if kept >= 2 {
+			sig := "seq"
+			for i := range c.Batch {
+				sig += "|" + c.Batch[i].listText()
+			}
+			kit.NonTrivial(sig)
+		}
 		kit.Sample(c)
 	}))
 
